@@ -1,6 +1,6 @@
 """C05 - Packet encryption round-trips and is authenticated before decryption.
 
-Decides the structural necessary conditions C05.R1-R8 of DESIGN.md section 4 and C05.R9 (below) - not the
+Decides the structural necessary conditions C05.R1-R8 of DESIGN.md section 4 and C05.R9 / C05.R10 (below) - not the
 behaviour of AES/HMAC themselves.
 
 The rules locate their subjects by role (the value compared with ``self.signature``, the arguments that feed
@@ -34,7 +34,14 @@ R5  pad(): (3) per return statement the returned term `<data> + <fill> * <count>
     (AES.block_size == 16).  encrypt_data / decrypt_data: (1)(3) the returned term is <AES cipher>.encrypt(pad(<data
     parameter>)) / .decrypt(<data parameter>) unmodified, by inlining and argument binding; (6) block-size argument folded.
 R6  (1) resolved AES.new calls; (3) key / mode / iv argument roles after inlining, forwarding by argument binding;
-    (2) AES.new unreachable on the CFG pruned under {key is None}; exit classes.
+    (2) AES.new unreachable on the CFG pruned under {key is None}; exit classes.  When the function is decorated and its own
+    body does not reject the None key, the guard is looked for in the wrappers every call passes through: (1) the decorator
+    (or the nested def a decorator factory returns) resolved in the package, its one returned nested wrapper (functools.wraps
+    / update_wrapper looked through), the calls of the wrapped callable inside it; (3) the key / iv parameters followed
+    outwards by argument binding of those calls (a `(*args, **kwargs)` wrapper that calls `func(*args, **kwargs)` leaves
+    the binding as it is); (2) the call of the wrapped function unreachable on the wrapper's CFG pruned under {key is None}.
+    The packet-level call sites are bound against the outermost wrapper's signature.  A decorator that is not of this
+    shape -> undecided.
 R7  (1)(3) writer term <packed length> + ciphertext + signature: pack call decoded by argument binding (functools.partial
     keywords included) or (6) the struct-format / cstruct type tables; length argument compared with the payload
     structurally; readers: field sources located by role, (2) read order by dominance / evaluation order inside one
@@ -75,6 +82,15 @@ R9  "the packet bytes are the framed bytes" (both framing readers): (3) backward
     were framed.  ((6) the only constant arguments recognised as making such a call the identity: an empty strip set /
     prefix / suffix, translate(None).)  Any other step (an unresolved call, decode / encode, join, concatenation with a
     non-empty constant, a parameter) is undecided.  Slice bounds and read lengths are NOT looked at here (R4 / R7 do).
+R10 "one CBC chain over the whole message" (encrypt_data / decrypt_data): (1) resolved AES.new calls; (2) is the construction
+    evaluated more than once per call - its statement lies on a CFG cycle, or (1) it is the element / condition / inner
+    iterable of a comprehension; (3) the names bound by the statements of that cycle / the comprehension targets are the
+    values that change between the repetitions; the data argument of every <cipher>.encrypt / .decrypt whose receiver
+    originates from that construction (definitions followed), with temporaries inlined: if it mentions a changing name while
+    key and iv do not, every piece of the message is processed as a fresh chain from the IV -> violated (the peer - the
+    other function of the pair, and the property's `AES-128-CBC under the configured IV` - runs one chain: only block 0 is
+    chained to the IV).  A repeated construction whose key / iv change (hand-made chaining) -> undecided; one cipher
+    object built outside the loop and fed piece by piece is one chain -> discharged.  Nothing is executed or unrolled.
 """
 
 from __future__ import annotations
@@ -88,7 +104,8 @@ from csverif.astutil import (
     src, statements, param_defaults,
 )
 from csverif.cfg import ENTRY, EXIT
-from csverif.q import FuncView, calls_to, inline, origin, raise_class, tv_eval
+from csverif.loader import Func
+from csverif.q import FuncView, all_origins, calls_to, inline, origin, raise_class, tv_eval
 
 SIG_LEN = 16  # property statement: "first 16 bytes of HMAC-SHA256"
 BLOCK = 16  # AES block size (pycryptodome constant AES.block_size)
@@ -262,7 +279,10 @@ def run(ctx):
         "constant across its sites; pad(): on every return path the appended count equals 16 - len(data) % 16 in polynomial "
         "normal form over the atoms len(data) and (P) % m (stated lemmas), with residue facts from the dominating branch "
         "conditions, cross-checked by interval abstract interpretation of the count (len(data) >= 0, block size 16); "
-        "cipher construction agreement, framing writer/reader agreement (subjects located by role: the arguments that feed the "
+        "cipher construction agreement (a None-key guard may sit in a package decorator's wrapper: the wrapped call must be "
+        "unreachable there under {key is None}), one CBC chain per message (a cipher construction that is repeated - CFG cycle or "
+        "comprehension - with the same key and IV must not be fed pieces of the message that change between the repetitions), "
+        "framing writer/reader agreement (subjects located by role: the arguments that feed the "
         "EncryptedPacket fields, the stream / buffer / offset they are taken from, the decoded length prefix; the reader loop is "
         "walked once with its loop-carried values symbolic, and its continuation condition, read as an interval predicate of the "
         "number of bytes left, must hold whenever a complete frame - at least 4 + 16 + 16 = 36 bytes - is left and fail when "
@@ -275,6 +295,11 @@ def run(ctx):
         "interpreting the analysed code on concrete inputs; does not decide AES/HMAC behaviour or plaintext equality."
     )
     rep.not_decided = [
+        "decorators of encrypt_data / decrypt_data that are not package functions of the shape `def deco(func): def wrapper(..): "
+        ".. func(..) ..; return wrapper` (optionally produced by a factory): guard / forwarding reported as undecided; what a "
+        "wrapper does to the data argument or the return value is not looked at",
+        "R10: hand-made chaining (repeated AES.new with an IV that changes per piece), whether pieces are block aligned, pieces "
+        "handled by different cipher objects outside loops (R5 reports a returned value that is not one cipher output)",
         "that AES-CBC/HMAC-SHA256 compute what they should (library)",
         "bit-flip rejection as such (follows from R1-R3 plus HMAC)",
         "plaintext equality for all inputs",
@@ -293,6 +318,10 @@ def run(ctx):
         "reported as undecided; what is done to `output` before it is stored in the container (C2Http.recover) is not C05's",
     ]
     rep.trusted_base = [
+        "R10 lemma: CBC decryption of block i uses ciphertext block i - 1 (block 0: the IV); a cipher object constructed from "
+        "(key, IV) starts at the IV, and one object fed block-aligned pieces in order continues its chain (pycryptodome CBC mode), "
+        "so pieces handled by separately constructed ciphers with the same IV differ from the single chain in their first block",
+        "a decorated function is only entered through the wrapper(s) its decorators return (no monkey-patching, `__wrapped__` not used)",
         "CPython ast", "networkx dominators", "AES.block_size == 16 (pycryptodome constant)",
         "csverif.absint interval transfer functions and SymPoly normal form",
         "lemma L1: x // m == (x - x % m) / m (division identity)",
@@ -334,6 +363,7 @@ def run(ctx):
     r7(ctx)
     r8(ctx, dp)
     r9(ctx)
+    r10(ctx)
     rep.count("signature_length_sites", rep.counts.get("signature_length_sites", 0), floor=6)
 
 
@@ -1151,6 +1181,10 @@ def _r5_cipher_io(ctx, f, meth, pad_f):
             ctx.undecided("R5", "AGREE", f, text, f"returned value {src(v)} contains no <cipher>.{meth}(..) call", r)
             continue
         if not (isinstance(v, ast.Call) and v is inner[0]) and not (isinstance(_strip_bytes(v), ast.Call) and _strip_bytes(v) is inner[0]):
+            if any(isinstance(x, _COMPS) and any(y is inner[0] for y in ast.walk(x)) for x in ast.walk(v)):
+                ctx.undecided("R5", "AGREE", f, text, f"the cipher output is produced piecewise inside a comprehension ({src(v)}): how the pieces "
+                              "make up the returned value is not understood (R10 looks at the chain)", r)
+                continue
             ctx.ob("R5", "AGREE", f, text, False, f"{f.qualname} post-processes the cipher output: returns {src(v)}", r)
             continue
         call = inner[0]
@@ -1183,8 +1217,125 @@ def _block_ok(e):
     return _kconst(e) == BLOCK
 
 
+# ---------------------------------------------------------------------------- decorated functions (R6)
+def _nested(outer, node):
+    """Func object of a def nested (at any depth) in package function `outer`."""
+    for g in outer.module.funcs.values():
+        if g.node is node:
+            return g
+    return Func(outer.module, f"{outer.qualname}.<locals>.{node.name}@{getattr(node, 'lineno', 0)}", node, outer.cls, outer)
+
+
+def _local_def(fn, name):
+    """The one nested def of function node fn bound to `name` (no other binding of the name), else None."""
+    ds = [s for s in statements(fn) if isinstance(s, (ast.FunctionDef, ast.AsyncFunctionDef)) and s.name == name]
+    if len(ds) != 1 or assignments_to(fn, name) or name in params(fn):
+        return None
+    return ds[0]
+
+
+def _single_return(fn):
+    rs = [s for s in statements(fn) if isinstance(s, ast.Return)]
+    return rs[0].value if len(rs) == 1 else None
+
+
+def _wrapped_value(ctx, g, e):
+    """functools.wraps(f)(w) / functools.update_wrapper(w, f) -> w (metadata copies, the callable is w)."""
+    e = _inl(g, e)
+    for _ in range(3):
+        if isinstance(e, ast.Call) and isinstance(e.func, ast.Call) and _ext(ctx, g, e.func) in ("functools.wraps", "wraps") and len(e.args) == 1:
+            e = e.args[0]
+        elif isinstance(e, ast.Call) and _ext(ctx, g, e) in ("functools.update_wrapper", "update_wrapper") and e.args:
+            e = e.args[0]
+        else:
+            break
+    return e
+
+
+def _wrapper_chain(ctx, f):
+    """The package wrappers every call of the decorated function f passes through, outermost first:
+    [(wrapper Func, [calls of the wrapped callable inside it])]; [] when f has no (or only identity) decorators; None when a
+    decorator is not understood (external, not `def deco(func): def wrapper(..): .. func(..) ..; return wrapper`, possibly
+    produced by a factory call)."""
+    out = []
+    for d in f.node.decorator_list:
+        probe = d if isinstance(d, ast.Call) else ast.Call(func=d, args=[], keywords=[])
+        cal = _resolved(ctx, f, probe)
+        if cal is None or cal.kind != "func" or cal.func is None:
+            return None
+        deco = cal.func
+        if isinstance(d, ast.Call):
+            # decorator factory: returns a nested def that takes the function
+            v = _single_return(deco.node)
+            inner = _local_def(deco.node, v.id) if isinstance(v, ast.Name) else None
+            if inner is None:
+                return None
+            deco = _nested(deco, inner)
+        ps = params(deco.node)
+        if len(ps) != 1 or assignments_to(deco.node, ps[0]):
+            return None
+        v = _single_return(deco.node)
+        if v is None:
+            return None
+        v = _wrapped_value(ctx, deco, v)
+        if not isinstance(v, ast.Name):
+            return None
+        if v.id == ps[0]:
+            continue  # the decorator hands the function back unchanged
+        wn = _local_def(deco.node, v.id)
+        if wn is None or ps[0] in params(wn) or assignments_to(wn, ps[0]):
+            return None
+        calls = [c for c in fn_calls(wn) if isinstance(c.func, ast.Name) and c.func.id == ps[0]]
+        # the wrapped callable must not leave the wrapper in any other way (stored, handed on) - except to functools.wraps
+        uses = [n for n in ast.walk(wn) if isinstance(n, ast.Name) and n.id == ps[0] and not any(n is c.func for c in calls)]
+        inner_wraps = {id(a) for dd in wn.decorator_list for a in ast.walk(dd)}
+        inner_wraps |= {id(x.value) for x in ast.walk(wn) if isinstance(x, ast.Attribute) and isinstance(x.ctx, ast.Load)
+                        and x.attr in ("__name__", "__qualname__", "__doc__", "__module__")}  # reading its name for a message
+        if any(id(n) not in inner_wraps for n in uses):
+            return None
+        out.append((_nested(deco, wn), calls))
+    return out
+
+
+def _is_passthrough(c, a):
+    return (len(c.args) == 1 and isinstance(c.args[0], ast.Starred) and dotted(c.args[0].value) == a.vararg.arg
+            and len(c.keywords) == 1 and c.keywords[0].arg is None and dotted(c.keywords[0].value) == a.kwarg.arg)
+
+
+def _outward(ctx, f, names):
+    """Follow parameters `names` of the decorated function f outwards through its wrappers.  Yields, innermost wrapper
+    first, (wrapper Func, calls, {name of f's parameter -> parameter of this wrapper that is passed on unmodified}) - the
+    mapping is None for a transparent `(*args, **kwargs)` wrapper, which leaves the binding of a call as it is; stops
+    (yielding None) where a wrapper is not understood or does not pass a plain, unmodified parameter."""
+    chain = _wrapper_chain(ctx, f)
+    if chain is None:
+        yield None
+        return
+    cur, callee = dict((n, n) for n in names), f.node
+    for w, calls in reversed(chain):
+        a = w.node.args
+        if a.vararg and a.kwarg and not (a.posonlyargs or a.args or a.kwonlyargs) and calls and all(_is_passthrough(c, a) for c in calls) \
+                and not assignments_to(w.node, a.vararg.arg) and not assignments_to(w.node, a.kwarg.arg):
+            # def wrapper(*args, **kwargs): ... func(*args, **kwargs): a call binds to the wrapped signature as it is
+            yield w, calls, None
+            continue
+        nxt = {}
+        for role, p in cur.items():
+            got = set()
+            for c in calls:
+                a = bind_args(c, callee).get(p)
+                dn = dotted(_strip_bytes(_inl(w, a))) if a is not None else None
+                got.add(dn if dn in params(w.node) and not assignments_to(w.node, dn) else None)
+            if len(got) != 1 or None in got:
+                yield None
+                return
+            nxt[role] = got.pop()
+        yield w, calls, nxt
+        cur, callee = nxt, w.node
+
+
 # ---------------------------------------------------------------------------- R6
-_AES_NEW = ("AES.new", "Crypto.Cipher.AES.new", "Cryptodome.Cipher.AES.new")
+_AES_NEW =("AES.new", "Crypto.Cipher.AES.new", "Cryptodome.Cipher.AES.new")
 _MODE_CBC = ("AES.MODE_CBC", "Crypto.Cipher.AES.MODE_CBC", "Cryptodome.Cipher.AES.MODE_CBC")
 
 
@@ -1194,6 +1345,41 @@ def _aes_roles(ctx, f, c):
     mode = c.args[1] if len(c.args) > 1 else kwarg(c, "mode")
     iv = kwarg(c, "iv") or kwarg(c, "IV") or (c.args[2] if len(c.args) > 2 else None)
     return _inl(f, key), _inl(f, mode), _inl(f, iv)
+
+
+def _r6_guard_in_wrappers(ctx, f, kd, c):
+    """The body of the decorated function f builds the cipher also when its key parameter kd is None: the None key must
+    then be rejected by one of the wrappers every call passes through (the call of the wrapped function is unreachable
+    on the wrapper's CFG pruned under {key is None}, and what is raised there is ValueError)."""
+    text = "no cipher without key"
+    levels = 0
+    for lv in _outward(ctx, f, (kd,)):
+        if lv is None:
+            ctx.undecided("R6", "DOM", f, text, "the None-key guard is not in the body and the decorators of the function are not understood "
+                          "(or do not pass the key on as a plain parameter): guard not located", c)
+            return
+        w, calls, names = lv
+        levels += 1
+        if not calls:
+            ctx.undecided("R6", "DOM", f, text, f"wrapper {w.qualname} never calls the wrapped function: not understood", c)
+            return
+        wcfg, wfv = ctx.cfg(w), FuncView.of(w.node)
+        if names is None:
+            # transparent wrapper: it does not name the key; one that neither branches nor raises cannot reject anything
+            if wcfg.raise_stmts() or any(isinstance(x, (ast.If, ast.IfExp, ast.While, ast.Assert, ast.Try, ast.Match)) for x in ast.walk(w.node)):
+                ctx.undecided("R6", "DOM", f, text, f"wrapper {w.qualname} takes (*args, **kwargs) and branches / raises: whether it rejects a None key is not understood", c)
+                return
+            continue
+        wk = names[kd]
+        spec = _spec(ctx, w, {f"{wk} is None": True, wk: False})
+        if not any(spec.reaches(ENTRY, wcfg.node(wfv.stmt_of(x))) for x in calls):
+            ctx.ob("R6", "DOM", f, text, True, f"the wrapper {w.qualname} does not call the function (so AES.new is not reached) when the key is None", c)
+            for r in wcfg.raise_stmts():
+                if spec.reaches(ENTRY, wcfg.node(r)):
+                    ctx.ob("R6", "EXIT", f, "raise without key", raise_class(r) == "ValueError",
+                           f"wrapper {w.qualname} raises {raise_class(r)} without key (documented ValueError)", r)
+            return
+    ctx.ob("R6", "DOM", f, text, False, "AES.new reachable with key None" + (f" (also through the {levels} wrapper(s) of the decorated function)" if levels else ""), c)
 
 
 def r6(ctx):
@@ -1213,6 +1399,13 @@ def r6(ctx):
             mode_ok = mode is not None and (dotted(mode) in _MODE_CBC or _cval(mode) == 2)
             key_ok = kd in ps and not assignments_to(f.node, kd)
             iv_ok = ivd in ps and ivd != kd and not assignments_to(f.node, ivd)
+            rep_c = _repeated(ctx, f, c) if (key_ok and mode_ok and not iv_ok and isinstance(iv, ast.Name)) else None
+            if rep_c is not None and iv.id in rep_c[1] and any(
+                    isinstance(o, ast.Name) and o.id in ps and o.id != kd and not assignments_to(f.node, o.id) for o in all_origins(f.node, iv)):
+                # the IV is a loop-carried value that starts as the iv parameter: hand-made chaining over pieces (R10: undecided too)
+                ctx.undecided("R6", "AGREE", f, "AES.new(key, MODE_CBC, iv)", f"the cipher is built repeatedly (in {rep_c[0]}) with an IV {src(iv)} that "
+                              "starts as the iv parameter and changes between the repetitions: hand-made chaining is not understood", c)
+                continue
             ctx.ob("R6", "AGREE", f, "AES.new(key, MODE_CBC, iv)", key_ok and mode_ok and iv_ok,
                    f"cipher built from (key, mode, iv)=({src(key)}, {src(mode)}, {src(iv)}); required (<key parameter>, AES.MODE_CBC, <iv parameter>)", c)
             if key_ok and iv_ok:
@@ -1222,6 +1415,10 @@ def r6(ctx):
             # None key -> ValueError before the cipher is built
             spec = _spec(ctx, f, {f"{kd} is None": True, kd: False})
             reach = spec.reaches(ENTRY, cfg.node(fv.stmt_of(c)))
+            if reach and f.node.decorator_list:
+                # the guard may sit in a wrapper every call of the function passes through
+                _r6_guard_in_wrappers(ctx, f, kd, c)
+                continue
             ctx.ob("R6", "DOM", f, "no cipher without key", not reach, "AES.new unreachable when the key is None" if not reach else "AES.new reachable with key None", c)
             for r in cfg.raise_stmts():
                 if spec.reaches(ENTRY, cfg.node(r)):
@@ -1237,8 +1434,21 @@ def r6(ctx):
             ctx.undecided("R6", "AGREE", f, text, f"{caller} does not call {callee}: forwarding not located", f.node)
             continue
         kp, ivp = roles.get(callee, ("aes_key", "iv"))
+        entry = ctx.repo.func(callee).node
+        if entry.decorator_list:
+            # a decorated callee is entered through its outermost wrapper: bind the call against that signature
+            lost, kp0, ivp0 = False, kp, ivp
+            for lv in _outward(ctx, ctx.repo.func(callee), (kp0, ivp0)):
+                if lv is None:
+                    lost = True
+                    break
+                if lv[2] is not None:
+                    entry, kp, ivp = lv[0].node, lv[2][kp0], lv[2][ivp0]
+            if lost:
+                ctx.undecided("R6", "AGREE", f, text, f"{callee} is decorated and its key / iv parameters could not be followed through the wrappers", f.node)
+                continue
         for c in cs:
-            b = bind_args(c, ctx.repo.func(callee).node)
+            b = bind_args(c, entry)
             got = {}
             for role, p in (("key", kp), ("iv", ivp)):
                 a = b.get(p)
@@ -1248,6 +1458,99 @@ def r6(ctx):
             ctx.ob("R6", "AGREE", f, text, ok,
                    f"cipher key/iv parameters of {short} bound to {got}" + (f"; {rebound} rebound in {caller}" if rebound else "")
                    + " (required: the caller's own aes_key and iv)", c)
+
+
+# ---------------------------------------------------------------------------- R10: one CBC chain per message
+_COMPS = (ast.ListComp, ast.SetComp, ast.DictComp, ast.GeneratorExp)
+_BLOCKS = ("body", "orelse", "finalbody", "handlers", "cases")
+
+
+def _own_stores(st):
+    """Names bound by statement st itself (the blocks of a compound statement are statements of their own)."""
+    out, todo = set(), [v for k, v in ast.iter_fields(st) if k not in _BLOCKS]
+    while todo:
+        x = todo.pop()
+        if isinstance(x, list):
+            todo.extend(x)
+        elif isinstance(x, ast.AST):
+            if isinstance(x, ast.Name) and isinstance(x.ctx, ast.Store):
+                out.add(x.id)
+            if not isinstance(x, (ast.FunctionDef, ast.AsyncFunctionDef, ast.ClassDef, ast.Lambda)):
+                todo.extend(v for _k, v in ast.iter_fields(x))
+    return out
+
+
+def _repeated(ctx, f, c):
+    """Is call c evaluated more than once per call of f?  -> (what repeats it, names that change between the evaluations)
+    or None.  CFG: the statement lies on a cycle - the names bound by the statements of that cycle (for-targets,
+    counters, re-sliced buffers); syntax: c is the element / condition / inner iterable of a comprehension - its targets."""
+    fv, cfg = FuncView.of(f.node), ctx.cfg(f)
+    variant, what = set(), []
+    for a in fv.ancestors(c):
+        if isinstance(a, _COMPS) and not any(x is c for x in ast.walk(a.generators[0].iter)):
+            what.append("a comprehension")
+            for g in a.generators:
+                variant |= {x.id for x in ast.walk(g.target) if isinstance(x, ast.Name)}
+    st = fv.stmt_of(c)
+    if st is not None and cfg.has(st):
+        n = cfg.node(st)
+        if cfg.in_cycle(n):
+            what.append("a loop")
+            for m, s in cfg.stmt.items():
+                if m == n or (cfg.reaches(n, m) and cfg.reaches(m, n)):
+                    variant |= _own_stores(s)
+    return (" and ".join(what), variant) if what else None
+
+
+def r10(ctx):
+    """One CBC chain per message.  The peer of encrypt_data / decrypt_data (the other function of the pair, and Cobalt
+    Strike itself: `AES-128-CBC under the configured IV`) runs ONE chain over the whole message: block i is chained to
+    ciphertext block i - 1, only block 0 to the IV.  A cipher object constructed anew - from the same key and IV - for
+    every piece of the message restarts the chain at the IV for every piece, so the first block of every further piece
+    is wrong: necessary for the round trip is that a cipher whose construction is repeated is not fed pieces that change
+    between the repetitions."""
+    for fq, meth in (("c2.encrypt_data", "encrypt"), ("c2.decrypt_data", "decrypt")):
+        f = ctx.repo.func(fq)
+        text = "one CBC chain over the whole message"
+        news = [c for c in fn_calls(f.node) if _ext(ctx, f, c) in _AES_NEW]
+        # constructions inside comprehensions are not `fn_calls` of nested defs but are part of the body: ast.walk sees them
+        if not news:
+            ctx.undecided("R10", "LOOP", f, text, f"no AES.new call found in {f.qualname}: cipher construction not located", f.node)
+            continue
+        fv = FuncView.of(f.node)
+        for c in news:
+            rep = _repeated(ctx, f, c)
+            if rep is None:
+                ctx.ob("R10", "LOOP", f, text, True, "the cipher object is constructed once per call (not on a CFG cycle, not inside a comprehension): "
+                       "all data it processes is one chain from the IV", c)
+                continue
+            what, variant = rep
+            uses = []
+            for u in ast.walk(f.node):
+                if isinstance(u, ast.Call) and isinstance(u.func, ast.Attribute) and u.func.attr in ("encrypt", "decrypt"):
+                    if u.func.value is c or any(o is c for o in all_origins(f.node, u.func.value)):
+                        uses.append(u)
+            if not uses:
+                ctx.undecided("R10", "LOOP", f, text, f"AES.new is evaluated repeatedly (in {what}) but the data fed to that cipher was not located", c)
+                continue
+            key, _mode, iv = _aes_roles(ctx, f, c)
+            moving = sorted({x.id for r in (key, iv) if r is not None for x in ast.walk(r) if isinstance(x, ast.Name)} & variant)
+            if moving:
+                ctx.undecided("R10", "LOOP", f, text, f"AES.new is evaluated repeatedly (in {what}) with key / iv that change between the repetitions "
+                              f"({moving}): hand-made chaining is not understood", c)
+                continue
+            for u in uses:
+                arg = _inl(f, u.args[0]) if len(u.args) == 1 and not u.keywords else None
+                if arg is None:
+                    ctx.undecided("R10", "LOOP", f, text, f"argument of {src(u)} not understood", u)
+                    continue
+                piece = sorted({x.id for x in ast.walk(arg) if isinstance(x, ast.Name)} & variant)
+                ctx.ob("R10", "LOOP", f, text, not piece,
+                       (f"AES.new(<key>, <mode>, <iv>) is evaluated repeatedly (in {what}) with the same key and IV, and each new cipher {meth}s a "
+                        f"different piece of the message ({src(arg)} changes with {piece}): every piece is a fresh CBC chain starting at the IV "
+                        "instead of continuing the chain of the previous piece, so the first block of every further piece does not round-trip")
+                       if piece else
+                       f"AES.new is evaluated repeatedly (in {what}) but each cipher processes the same, complete value {src(arg)}", u)
 
 
 # ---------------------------------------------------------------------------- R7
